@@ -573,6 +573,9 @@ def _hook(k, wname, hname, spec, counters):
 _SIM_CLASSES = {}
 
 
+CURRENT = None            # the Sim whose scenario is running (harness/simhooks.py reads its hook counters)
+
+
 def simify_arbiter(arb):
     """The daemon as circusd runs it (it owns the loop: quit stops the loop, Arbiter.start's epilogue closes the sockets) —
     except inside Arbiter.start() itself, which takes its provided-loop branch so that the harness, not a blocking
@@ -678,7 +681,10 @@ class Sim(object):
         ws = []
         for w in self.sc["watchers"]:
             ws.append(self.make_watcher(w, counters))
+            ws[-1]._verif_cfg = True          # a watcher of the configuration: its hook counters are in `counters`
         self.counters = counters
+        global CURRENT
+        CURRENT = self
         a = self.sc.get("arb", {})
         self.arb = A.Arbiter(ws, "ipc:///dev/shm/verif-none-ctl", "ipc:///dev/shm/verif-none-pub",
                              check_delay=-1, loop=self.loop, warmup_delay=a.get("warmup_ms", 0) / 1000.0,
